@@ -189,6 +189,68 @@ Section State.
       + intros _. exact G.
   Qed.
 
+  (* ---------- assignments of values that alias the stored ones.  The setters always call update, and update
+     recomputes delta_k and the grid from the value it is given, so the state before the assignment need not
+     satisfy the invariant in the edited component. *)
+  Lemma step_with_period st u st' c pv : f_model st = Some c -> wf_model c -> wf_upd u -> u_period u = Some pv ->
+    (u_mode_no u = None ->
+       exists mn0, f_mode_no st = Some mn0 /\ Forall (fun k => Z.even k = true /\ (0 <= k)%Z) mn0) ->
+    step O st u = (st', Ok) -> Inv st'.
+  Proof.
+    intros Hc Wc Wu Hp Hmn. unfold step. rewrite Hc, Hp.
+    set (tmp := match u_model u with Some m => m | None => c end).
+    replace (match u_model u with Some m => Some m | None => Some c end) with (Some tmp)
+      by (unfold tmp; destruct (u_model u); reflexivity).
+    set (changed := match u_model u with Some m => negb (model_close O c m) | None => false end).
+    assert (Wt : wf_model tmp). { unfold tmp. unfold wf_upd in Wu. destruct (u_model u); auto. }
+    destruct (fill_to_dim (m_dim tmp) pv) as [p|] eqn:Efp; [|discriminate].
+    destruct (fill_to_dim_facts (fun _ => True) _ pv p Efp) as [Lp _]. { apply Forall_forall; auto. }
+    destruct Wt as [Wt1 Wt2].
+    pose proof (delta_k_len p (m_anis tmp) (m_dim tmp) Lp Wt2 Wt1) as Ldk.
+    destruct (u_mode_no u) as [mv|] eqn:Emv.
+    - intros H. apply mode_block_ok with (a := m_anis tmp) in H.
+      + destruct H as [H1 H2]. exists tmp. split.
+        { rewrite H2. unfold new_copy, tmp. simpl. rewrite ?Emv, ?orb_true_r. destruct (u_model u); auto. }
+        split; [split; auto|exact H1].
+      + exists p. simpl. auto.
+      + rewrite Emv. discriminate.
+    - destruct (Hmn eq_refl) as [mn0 [G2 G7]]. rewrite G2.
+      destruct (fill_to_dim (m_dim tmp) mn0) as [mn|] eqn:Efm; [|discriminate].
+      destruct (fill_to_dim_facts (fun k => Z.even k = true /\ (0 <= k)%Z) _ mn0 mn Efm G7) as [Lmn Hev].
+      destruct (set_modes_stored mn (delta_k O p (m_anis tmp))) as [S1 [S2 S3]]; [lia|].
+      intros H. apply mode_block_ok with (a := m_anis tmp) in H.
+      + destruct H as [H1 H2]. exists tmp. split.
+        { rewrite H2. unfold new_copy, tmp. simpl. rewrite ?orb_true_r. destruct (u_model u); auto. }
+        split; [split; auto|exact H1].
+      + exists p. simpl. auto.
+      + intros _. exists p, (snd (set_modes O mn (delta_k O p (m_anis tmp)))).
+        cbn [f_period f_mode_no f_dk f_modes f_model]. repeat split; auto; try lia.
+        * unfold grid_of. rewrite S1. reflexivity.
+        * apply S3. eapply Forall_impl; [|exact Hev]. intros k [Hk _]. exact Hk.
+  Qed.
+
+  (* gen.period <op>= c / per = gen.period; per[i] = v; gen.period = per : whatever the edit left in _period *)
+  Theorem alias_period st p_edit pv sd st' : Inv st ->
+    step O (edit_period st p_edit) (mkUpd None sd (Some pv) None) = (st', Ok) -> Inv st'.
+  Proof.
+    intros [c [Hc [Wc [p0 [mn0 [G1 [G2 [G3 [G4 [G5 [G6 G7]]]]]]]]]]] H.
+    apply (step_with_period _ _ _ c pv) in H; auto; try exact I.
+    intros _. exists mn0. auto.
+  Qed.
+
+  (* m = gen.mode_no; m[i] = v; gen.mode_no = m : whatever the edit left in _mode_no *)
+  Theorem alias_mode_no st mn_edit mv sd st' : Inv st ->
+    step O (edit_mode_no st mn_edit) (mkUpd None sd None (Some mv)) = (st', Ok) -> Inv st'.
+  Proof.
+    intros [c [Hc [Wc [p0 [mn0 [G1 [G2 [G3 [G4 [G5 [G6 G7]]]]]]]]]]]. unfold step.
+    cbn [u_model u_period u_mode_no u_seed edit_mode_no f_model f_period]. rewrite Hc.
+    intros H. apply mode_block_ok with (a := m_anis c) in H.
+    - destruct H as [H1 H2]. exists c. split; [|split; auto].
+      rewrite H2. unfold new_copy. cbn. exact Hc.
+    - exists p0. cbn. repeat split; auto. rewrite G5. destruct Wc. apply delta_k_len; auto.
+    - cbn. discriminate.
+  Qed.
+
   (* Fourier(model, period, mode_no, seed) establishes the invariant *)
   Theorem init_inv m period mode_no st : wf_model m -> init O m period mode_no = (st, Ok) ->
     Inv st /\ f_model st = Some m.
